@@ -118,7 +118,7 @@ mutual
 theorem sites_from_nodes_node (hid : Bool) (n : Node) :
     ∀ s ∈ sitesNode hid n, ∃ m ∈ allNodesNode n,
       m.kind.pythonBearing = true ∧ s.lineno = m.lineno ∧ s.code = m.code ∧
-      (s.filter = [] ∨ (m.kind = .expr ∧ s.filter = m.esc)) := by
+      (s.filter = [] ∨ (m.kind = .expr ∧ s.filter = m.esc ∧ s.filterOff = m.escOff)) := by
   cases n with
   | mk k ln code esc off text ch =>
     intro s hs
@@ -129,7 +129,7 @@ theorem sites_from_nodes_node (hid : Bool) (n : Node) :
         refine ⟨.mk k ln code esc off text ch, by simp [allNodesNode], ?_⟩
         subst hs
         by_cases he : k = .expr
-        · subst he; simp [Node.kind, Node.lineno, Node.code, Node.esc, Kind.pythonBearing]
+        · subst he; simp [Node.kind, Node.lineno, Node.code, Node.esc, Node.escOff, Kind.pythonBearing]
         · simp [Node.kind, Node.lineno, Node.code, hk, he]
       · simp [hk] at hs
     · obtain ⟨m, hm, h⟩ := sites_from_nodes_list _ ch s hs
@@ -137,7 +137,7 @@ theorem sites_from_nodes_node (hid : Bool) (n : Node) :
 theorem sites_from_nodes_list (hid : Bool) (ns : List Node) :
     ∀ s ∈ sitesList hid ns, ∃ m ∈ allNodesList ns,
       m.kind.pythonBearing = true ∧ s.lineno = m.lineno ∧ s.code = m.code ∧
-      (s.filter = [] ∨ (m.kind = .expr ∧ s.filter = m.esc)) := by
+      (s.filter = [] ∨ (m.kind = .expr ∧ s.filter = m.esc ∧ s.filterOff = m.escOff)) := by
   cases ns with
   | nil => simp [sitesList]
   | cons n ns =>
